@@ -406,6 +406,17 @@ func TestVerif_C03(t *testing.T) {
 	var rp c03Case
 	var rpx c03xCase
 	keys := map[[32]byte]string{}
+	var other struct {
+		Sched   bool   `json:"sched"`    // artefact of the schedule part (derive_sched_test.go, package crypto)
+		RaceLog string `json:"race_log"` // artefact of the -race pass
+	}
+	if r.ReplayInto(&other) && (other.Sched || other.RaceLog != "") {
+		// replayed by TestVerif_C03_Derive / not replayable here
+		if err := r.Finish(); err != nil {
+			t.Fatal(err)
+		}
+		return
+	}
 	if r.ReplayInto(&rpx) && rpx.Ext {
 		// artefact of the second half (initiators_test.go)
 		c03xRun(r, rpx, keys)
@@ -487,5 +498,96 @@ func TestVerif_C03(t *testing.T) {
 	r.Sample(c03Case{Side: "initiator", Kind: "udp", Key: c03Degenerate[2]})
 	if err := r.Finish(); err != nil {
 		t.Fatal(err)
+	}
+}
+
+// TestVerifRace_C03 is the free-running body of the separate -race pass: the same per-end
+// derivation as the schedule part (derive_sched_test.go), four tunnels, both ends of each, eight
+// goroutines deriving side by side. Only the race detector's report counts (check.json
+// race_state); nothing is asserted here. (race_keep_rewrites: the binary is built from the
+// rewritten crypto.go -- the vsched.Step() calls are no-ops outside sched.Run -- because the
+// un-rewritten fallback of bin/check would be the /repo file even under --replace; see NOTES.md.)
+func TestVerifRace_C03(t *testing.T) {
+	type tun struct {
+		req                      uint64
+		ipriv, ipub, rpriv, rpub [32]byte
+	}
+	var base [32]byte
+	base[0] = 9
+	var ts []tun
+	for k := 0; k < 4; k++ {
+		var x tun
+		x.req = uint64(k + 1)
+		for i := range x.ipriv {
+			x.ipriv[i], x.rpriv[i] = byte((2*k+1)*37+i*11+5), byte((2*k+2)*37+i*11+5)
+		}
+		x.ipub, _ = crypto.ComputeECDH(x.ipriv, base)
+		x.rpub, _ = crypto.ComputeECDH(x.rpriv, base)
+		ts = append(ts, x)
+	}
+	// every round: all goroutines are created first and released together by closing one channel
+	// (so that no spawn or WaitGroup operation orders one goroutine's derivations before another's).
+	// Three bodies: the whole per-end derivation as the handlers run it; DeriveSessionKey alone on
+	// shared secrets computed beforehand; ComputeECDH alone. The single-function bodies keep two
+	// goroutines' accesses to the same state close together: one X25519 ladder is > 10^5 instrumented
+	// memory accesses, more than the detector's per-goroutine history, and a report whose earlier
+	// stack can no longer be restored is dropped.
+	type end struct {
+		x         tun
+		initiator bool
+		shared    [32]byte
+	}
+	var ends []end
+	for _, x := range ts {
+		for _, initiator := range []bool{true, false} {
+			e := end{x: x, initiator: initiator}
+			if initiator {
+				e.shared, _ = crypto.ComputeECDH(x.ipriv, x.rpub)
+			} else {
+				e.shared, _ = crypto.ComputeECDH(x.rpriv, x.ipub)
+			}
+			ends = append(ends, e)
+		}
+	}
+	bodies := []struct {
+		rounds, calls int
+		f             func(e end)
+	}{
+		{10, 10, func(e end) {
+			priv, pub := e.x.rpriv, e.x.ipub
+			if e.initiator {
+				priv, pub = e.x.ipriv, e.x.rpub
+			}
+			if shared, err := crypto.ComputeECDH(priv, pub); err == nil {
+				crypto.DeriveSessionKey(shared, e.x.req, e.x.ipub, e.x.rpub, e.initiator)
+			}
+		}},
+		{20, 50, func(e end) { crypto.DeriveSessionKey(e.shared, e.x.req, e.x.ipub, e.x.rpub, e.initiator) }},
+		{20, 5, func(e end) {
+			priv, pub := e.x.rpriv, e.x.ipub
+			if e.initiator {
+				priv, pub = e.x.ipriv, e.x.rpub
+			}
+			crypto.ComputeECDH(priv, pub)
+		}},
+	}
+	for _, b := range bodies {
+		for it := 0; it < b.rounds; it++ {
+			var wg sync.WaitGroup
+			start := make(chan struct{})
+			wg.Add(len(ends))
+			for _, e := range ends {
+				e := e
+				go func() {
+					defer wg.Done()
+					<-start
+					for j := 0; j < b.calls; j++ {
+						b.f(e)
+					}
+				}()
+			}
+			close(start)
+			wg.Wait()
+		}
 	}
 }
